@@ -124,7 +124,7 @@ def oracle_every(c):
 def mle_cells(tier, seed):
     """Chunks of K datasets per family; the success counts are pooled over all chunks (and shards) by the harness
     (POOLED below) and tested against the 80 % rule with an exact binomial test on the totals."""
-    K, chunks = (60, 16) if tier == 'quick' else (250, 32)
+    K, chunks = (120, 16) if tier == 'quick' else (250, 32)
     rs = np.random.RandomState((seed * 17 + 3) % (2 ** 32))
     out = []
     for _ in range(chunks):
